@@ -48,17 +48,17 @@ def _check_graph(g, cells, pairs, paths, np_seed, sig="C13"):
 
     # nodes_connected
     for u, v in pairs:
-        dt = np.int8 if (u[0] + u[1] + v[0]) % 3 == 0 else np.int64
+        dt = np.int8 if ((u[0] + u[1] + v[0]) % 3 == 0 and max(r, c) <= 128) else np.int64
         got = call(f"{sig}:nodes_connected", m.nodes_connected, np.array(u, dtype=dt), np.array(v, dtype=dt))
         require(bool(got) == (tuple(v) in a[tuple(u)]), f"{sig}:nodes_connected", f"{u}->{v}: got {bool(got)}; bits={g['cl']} {r}x{c}")
     # neighbours / components
     for k, u in enumerate(cells):
-        arg = (np.array(u) if k % 4 == 0 else np.array(u, dtype=np.int8)) if k % 2 == 0 else tuple(u)
+        arg = (np.array(u) if (k % 4 == 0 or max(r, c) > 128) else np.array(u, dtype=np.int8)) if k % 2 == 0 else tuple(u)
         nb_raw = call(f"{sig}:get_coord_neighbors", m.get_coord_neighbors, arg)
         nb = L.as_cells(nb_raw)
         scribble(nb_raw)
         require(len(nb) == len(set(nb)) and set(nb) == set(a[tuple(u)]), f"{sig}:get_coord_neighbors", f"{u}: got {nb}, model {sorted(a[tuple(u)])}; bits={g['cl']} {r}x{c}")
-        comp = call(f"{sig}:component", m.gen_connected_component_from, np.array(u, dtype=np.int8 if k % 3 == 1 else np.int64))
+        comp = call(f"{sig}:component", m.gen_connected_component_from, np.array(u, dtype=np.int8 if (k % 3 == 1 and max(r, c) <= 128) else np.int64))
         comp_raw = comp
         comp = L.as_cells(comp)
         scribble(comp_raw)
